@@ -1117,6 +1117,19 @@ class MultipartWriter(Payload):
         )
 
     @property
+    def _binary_headers(self) -> bytes:
+        # As a nested part this writer got its Content-Length when it was
+        # appended; it can still grow afterwards, so refresh the header
+        # whenever the part headers are rendered.
+        if CONTENT_LENGTH in self._headers:
+            size = self.size
+            if size is None:
+                del self._headers[CONTENT_LENGTH]
+            else:
+                self._headers[CONTENT_LENGTH] = str(size)
+        return super()._binary_headers
+
+    @property
     def size(self) -> int | None:
         """Size of the payload."""
         total = 0
